@@ -348,6 +348,7 @@ PROPS = {
         "rule": "9 client programs covering every command kind (LOGIN with synchronising literals, AUTHENTICATE, SELECT, LIST+STATUS, STATUS, "
                 "NAMESPACE, FETCH consumed by Collect / by manual Next+Read / closed unread, UID SEARCH, STORE, COPY, MOVE, EXPUNGE, "
                 "UNSELECT, APPEND with synchronising and non-synchronising literal, IDLE..DONE, 5 pipelined commands, CREATE/RENAME/"
+                "" 
                 "SUBSCRIBE/ENABLE/CAPABILITY/DELETE, LOGOUT) are recorded against a real imapserver with a stub backend; the recorded "
                 "server byte stream is replayed to a fresh client through a fault connection that preserves causality (a server byte "
                 "becomes readable once the client has written what preceded it) and injects, after EVERY byte offset, each of: EOF, a "
@@ -357,9 +358,11 @@ PROPS = {
                 "not fully delivered returns an error. Exhaustive over offsets x faults per transcript. Non-trivial: every "
                 "(program, shard) enumeration; evidence counts transcripts, offsets and offsets strictly inside literals.",
         "assumptions": ["'returns' means within 6 s of wall clock on in-memory I/O with virtual deadlines (normal latency: microseconds); a failure report carries the goroutine dump",
-                        "STARTTLS and multi-step SASL exchanges are not in the corpus (the server under test answers AUTHENTICATE PLAIN with SASL-IR in one step)"],
+                        "multi-step SASL exchanges are not in the corpus (the server under test answers AUTHENTICATE PLAIN with SASL-IR in one step)",
+                        "STARTTLS transcript: a replayed TLS negotiation cannot succeed (other key shares), so every command after STARTTLS is expected to fail in every replay; offsets inside TLS records are fault points for termination and clean-up, not for success"],
         "units": [
             plain("c10", "TestEnumFaults", shards_q=10, shards_t=15),
+            plain("c10", "TestEnumFaultsStartTLS", shards_q=6, shards_t=8),
         ],
     },
     "C13": {
